@@ -6,8 +6,9 @@ columns present), any sparse format; a corruption target (gradient / Jacobian / 
 position (row, column) and a magnitude |delta| in [2.5e-4 + 2e-5 |entry|, 10] with either sign, or the entry is
 omitted from the sparse matrix altogether (error -entry, when that is in the same range).
 
-Three runs per case (iteration_limit 5): derivative check off; CheckAll on the correct problem;
-CheckAll on the problem with the single entry corrupted.  Oracle: the correct problem raises no
+Three runs per case (iteration_limit 5): derivative check off; CheckAll (or only the order the entry belongs to:
+CheckFirst for gradient / Jacobian, CheckSecond for Hessian entries) on the correct problem; the same check on the
+problem with the single entry corrupted.  Oracle: the correct problem raises no
 DerivError and its digest equals the digest without the check ("never alters the solve"); the
 corrupted one raises DerivError with col_index == column and invalid_indices == [row]
 (gradient: [0]).
@@ -76,7 +77,9 @@ def strategy(tier):
         sign = draw(st.sampled_from([-1.0, 1.0]))
         # "omit": the entry is left out of the sparse matrix altogether (a forgotten entry of the sparsity pattern)
         mode = draw(st.sampled_from(["add", "add", "omit"]))
-        return {"spec": spec, "start": {"x0": x0, "y0": y0}, "target": target, "r": r, "c": c, "mag": mag, "sign": sign, "mode": mode}
+        # which check is requested: all of them, or only the order the wrong entry belongs to
+        dc = draw(st.sampled_from(["CheckAll", "CheckAll", "own_order"]))
+        return {"spec": spec, "start": {"x0": x0, "y0": y0}, "target": target, "r": r, "c": c, "mag": mag, "sign": sign, "mode": mode, "dc": dc}
 
     return _s()
 
@@ -162,16 +165,20 @@ def check(case):
         solver = make_tracing_solver(problem, params)
         return run_solve(problem, params, x0.copy(), y0.copy(), solver=solver)
 
+    CHECK = DerivCheck.CheckAll
+    if case.get("dc") == "own_order":
+        CHECK = DerivCheck.CheckSecond if target == "hess" else DerivCheck.CheckFirst
+    labels.append(f"deriv_check:{CHECK.name}")
     base = run(make_user_problem(spec), DerivCheck.NoCheck)
-    good = run(make_user_problem(spec), DerivCheck.CheckAll)
+    good = run(make_user_problem(spec), CHECK)
     if isinstance(good.exc, DerivError):
         e = good.exc
-        return violation(f"correct-derivatives-rejected|{target}", f"CheckAll rejects a correct problem: col {e.col_index}, rows {e.invalid_indices.tolist()}, max diff {e.max_deriv_diff:.3e}", labels, sub=3)
+        return violation(f"correct-derivatives-rejected|{target}", f"{CHECK.name} rejects a correct problem: col {e.col_index}, rows {e.invalid_indices.tolist()}, max diff {e.max_deriv_diff:.3e}", labels, sub=3)
     if good.digest != base.digest:
-        return violation("check-alters-solve", f"digest with CheckAll differs from NoCheck ({good.result.status.name if good.result else good.exc!r} vs {base.result.status.name if base.result else base.exc!r})", labels, sub=3)
-    bad = run(corrupt(make_user_problem(spec), target, r, c, delta, omit=omit), DerivCheck.CheckAll)
+        return violation("check-alters-solve", f"digest with {CHECK.name} differs from NoCheck ({good.result.status.name if good.result else good.exc!r} vs {base.result.status.name if base.result else base.exc!r})", labels, sub=3)
+    bad = run(corrupt(make_user_problem(spec), target, r, c, delta, omit=omit), CHECK)
     if not isinstance(bad.exc, DerivError):
-        return violation(f"wrong-entry-accepted|{target}", f"{target} entry ({r},{c}) wrong by {delta:.3e} (true {entry:.3e}) but CheckAll raised {bad.exc!r} / returned {bad.result.status.name if bad.result else None}", labels, sub=3)
+        return violation(f"wrong-entry-accepted|{target}", f"{target} entry ({r},{c}) wrong by {delta:.3e} (true {entry:.3e}) but {CHECK.name} raised {bad.exc!r} / returned {bad.result.status.name if bad.result else None}", labels, sub=3)
     e = bad.exc
     rows = [int(t) for t in np.asarray(e.invalid_indices).tolist()]
     exp_rows = [0] if target == "grad" else [r]
